@@ -324,6 +324,9 @@ func (e *Engine) Discharge(obls []*Obligation, outDir string, timeout time.Durat
 					if sr, _ := Race(sf, st, DefaultSolvers, false); sr.Status == "unsat" {
 						sr.File = sf
 						sr.Backend += "(slice)"
+						if all {
+							sr = crossCheck(j, sr)
+						}
 						mu.Lock()
 						results[j] = sr
 						mu.Unlock()
@@ -341,6 +344,9 @@ func (e *Engine) Discharge(obls []*Obligation, outDir string, timeout time.Durat
 					if lr, _ := Race(lf, lt, DefaultSolvers, false); lr.Status == "unsat" {
 						lr.File = lf
 						lr.Backend += "(lite)"
+						if all {
+							lr = crossCheck(j, lr)
+						}
 						mu.Lock()
 						results[j] = lr
 						mu.Unlock()
@@ -809,6 +815,19 @@ func skolemize(t *smt.Term) *smt.Term {
 		return smt.And(as...)
 	}
 	return t
+}
+
+// crossCheck (thorough tier): an obligation proved from a subset of its hypotheses is additionally sent, in full, to
+// every solver; an answer `sat` from any of them contradicts the proof and is reported as an engine fault.
+func crossCheck(j *queryJob, proved QueryResult) QueryResult {
+	_, allr := Race(j.file, 10*time.Second, DefaultSolvers, true)
+	for _, r := range allr {
+		if r.Status == "sat" {
+			return QueryResult{Status: "error", Raw: "solvers disagree: " + proved.Backend + " proved the sliced query, " + r.Backend + " answers sat on the full query", Backend: "all", File: j.file}
+		}
+	}
+	proved.Backend += "+xcheck"
+	return proved
 }
 
 // sliceHyps keeps the hypotheses in the cone of influence of the goal: a hypothesis is kept when it shares a
